@@ -361,6 +361,8 @@ Ok_C05 ==
                    /\ cur.sess[s].ents[e].px # E0.px => byOwner
                    /\ (e \in DOMAIN cur.sess[s].assets
                        /\ (e \notin DOMAIN pre.sess[s].assets \/ pre.sess[s].assets[e] # cur.sess[s].assets[e])) => byOwner
+                   \* .. and what is attached to an entity that stays does not go away through anybody else either
+                   /\ (e \in DOMAIN pre.sess[s].assets /\ e \notin DOMAIN cur.sess[s].assets) => byOwner
 
 (***************************************************************************)
 (* C06  a departure removes exactly the leaver's non-persistent entities   *)
